@@ -2,7 +2,7 @@ import Babble.Proofs.HGOrder
 import Babble.Proofs.HGFame
 import Babble.Proofs.HGBlocks
 import Babble.Proofs.DagVote
-import Babble.Proofs.HGRoundMono
+import Babble.Proofs.HGWitness
 /-! # C03 — consensus output is a function of the event DAG only
     Proved here: the deterministic ingredients that make the output independent of process-local
     state, and — for a static validator set, on the declarative model `Babble.Dag` that the
@@ -104,5 +104,15 @@ theorem rounds_never_decrease_along_parents (g : List Nat) (es : List HG.Ev) (hn
       (e.sp ≠ "" → ∃ p rp, (HG.runAll (HG.St.init g) es).get e.sp = some p ∧ p.round = some rp ∧ rp ≤ r) ∧
       (e.op ≠ "" → ∃ p rp, (HG.runAll (HG.St.init g) es).get e.op = some p ∧ p.round = some rp ∧ rp ≤ r) :=
   HG.round_parents g es hnd hfresh x e hx
+
+/-- **a witness is the first event of its creator in its round** (operational model): a stored event
+    whose witness flag is `true` has a round strictly above the round of its self-parent — with
+    `rounds_never_decrease_along_parents` along the creator's chain (C07), no creator has two witnesses
+    in one round; again the shape `Babble.Dag` has by construction -/
+theorem witness_round_above_self_parent (g : List Nat) (es : List HG.Ev) (hnd : (es.map (·.id)).Nodup)
+    (hfresh : ∀ e ∈ es, e.id ≠ "" ∧ e.round = none ∧ e.rr = none) (x : String) (e p : HG.Ev) (r rp : Int)
+    (hx : (HG.runAll (HG.St.init g) es).get x = some e) (hw : e.wit = some true) (hr : e.round = some r)
+    (hsp : e.sp ≠ "") (hp : (HG.runAll (HG.St.init g) es).get e.sp = some p) (hrp : p.round = some rp) : rp < r :=
+  HG.witness_above_self_parent g es hnd hfresh x e p r rp hx hw hr hsp hp hrp
 
 end Babble.Props.C03
